@@ -471,10 +471,14 @@ def main(ctx):
             with open(fn, "w") as f:
                 f.write(STALE)
         kw = dict(file=fn) if tofile else {}
+        nfd = len(os.listdir("/proc/self/fd"))
         if route.startswith("oneshot"):
             out = htm.HTM(depth).match(ra1, dec1, ra2, dec2, rad, maxmatch=mm, **kw)
         else:
             out = htm.Matcher(depth, ra2, dec2).match(ra1, dec1, rad, maxmatch=mm, **kw)
+        if len(os.listdir("/proc/self/fd")) != nfd:
+            # a call that leaves its pair file open makes a later match(file=) of a long job fail ("too many open files")
+            raise _Fail("fd-leak", "the call left %d file descriptor(s) open" % (len(os.listdir("/proc/self/fd")) - nfd))
         if not tofile:
             return out, 1
         return read_back(out, fn), 2
@@ -910,6 +914,36 @@ def main(ctx):
 
     object_world(ctx, "several-matchers", list(MK), m_new, MOPS, m_do, m_modules, result_edits=True, depth=ctx.pick(3, 4),
                  check=m_check, must_raise=lambda kind, op: op[0] == "bad", nodedup_depth=ctx.pick(3, 4), state=lambda h: (h.M.get_depth(), getattr(h.M, "__dict__", {}), h.ra2, h.dec2))
+
+    # ------------------------------------------------------------ empty point sets
+    # an empty first set, an empty matcher, both: no pair, count 0, the pair file created (replacing a stale one),
+    # readable and empty, every file descriptor closed again - through every route, depth and limit
+    def one_empty(case, rec):
+        which, depth, mm, route, rad = case
+        e = np.array([], dtype="f8")
+        a, b = np.array([10.0, 20.0, 359.9]), np.array([1.0, -2.0, 89.0])
+        c1 = (e, e) if which in ("first", "both") else (a, b)
+        c2 = (e, e) if which in ("second", "both") else (a + 0.0001, b)
+        radv = rad if rad != "per-point" else np.full(c1[0].size, 0.5)
+        fn = os.path.join(rec.tmp, "c12_empty.pairs")
+        try:
+            out, k = call(route, depth, c1, c2, radv, mm, fn)
+        except _Fail as ex:
+            return rec.fail(case, "%s point set empty: %s" % (which, ex))
+        except Exception as ex:
+            return rec.fail(case, "%s point set empty: match raised %s: %s" % (which, type(ex).__name__, ex))
+        if not (isinstance(out, tuple) and len(out) == 3 and all(np.asarray(v).shape == (0,) for v in out)):
+            return rec.fail(case, "%s point set empty: result %r is not three empty arrays" % (which, out))
+        if [np.asarray(v).dtype.kind for v in out] != ["i", "i", "f"]:
+            return rec.fail(case, "%s point set empty: result arrays have types %r" % (which, [np.asarray(v).dtype.str for v in out]))
+        rec.ok(case, outcome="empty:%s:%s" % (which, route), nontrivial=True, calls=k)
+
+    emunits = [(w, d, mm, route, rad) for w in ("first", "second", "both") for d in (1, 8, 13) for mm in (-1, 0, 1, 2)
+               for route in ("oneshot-mem", "matcher-mem", "oneshot-file", "matcher-file") for rad in (0.0, 1.0, 180.0, "per-point")
+               if not (rad == 180.0 and d > 1)]          # (a half-sphere circle at depth 13 covers 5e8 triangles)
+    ctx.lattice("empty-sets", emunits, one_empty, envstrict=True,
+                bounds=dict(empty=["first", "second", "both"], depths=[1, 8, 13], maxmatch=[-1, 0, 1, 2], radii=[0.0, 1.0, 180.0, "per-point"],
+                            routes=["oneshot-mem", "matcher-mem", "oneshot-file", "matcher-file"]))
 
 
 class _Fail(Exception):
